@@ -1100,6 +1100,9 @@ class Summariser:
             local = isinstance(f, ast.Name) and f.id in st.env
             if name and not local:
                 return self.call_global(name, fterm, args, kws, kwd, node, st)
+            if not isinstance(f, ast.Name) and fterm[0] == "attr" and isinstance(fterm[2], str):
+                # a method obtained as a value, e.g. getattr(obj, "decode")(...) with a constant name: the same call as obj.decode(...)
+                return self.call_method(fterm[1], fterm[2], fterm, args, kws, kwd, node, st)
             return self.call_value(fterm, args, kws, node, st)
         if base == ("param", "self") and st.env.get("self", base) == base and self.self_cls and self.model.resolve(self.self_cls, f.attr) is None:
             c = self.class_constant(f.attr)
@@ -1140,6 +1143,8 @@ class Summariser:
                 a["res"] = ("call", fterm, args, kws)
             self.emit(st, kind, a, node)
             return a["res"]
+        if name == "getattr" and len(args) == 2 and not kws and N.is_const(args[1]) and isinstance(args[1][2], str):
+            return ("attr", args[0], args[1][2])
         if name in PURE_BUILTINS:
             if name == "bytes" and len(args) == 1 and N.is_int(args[0]):
                 return ("zeros", args[0])
